@@ -375,7 +375,9 @@ def run(ctx):
                     and any(is_len_of_example(x) for x in ast.walk(flow.expand(m.value, fnb))) for m in stmts_)
 
                 def is_len(e):
-                    return is_len_of_example(e) or (maxlen_current and A.is_self_attr(e, 'max_len'))
+                    # max(len) over the members is what the LOWER bound needs; the upper bound follows the shortest member,
+                    # so there only the length of the example itself will do
+                    return is_len_of_example(e) or (maxlen_current and attr == 'lower_bound' and A.is_self_attr(e, 'max_len'))
                 depends = any(is_len(x) for x in ast.walk(ve))
                 kk = K.key(ts0, mname_, 'new-%s-from-len(%s)' % (attr, 'example'))
                 if not depends:
